@@ -773,6 +773,16 @@ var vScripts = map[string][]vStep{
 		{Ev: "return", DN: "root.d.w", Kind: "ctx"}, {Ev: "died", DN: "root.d.w", Kind: "ctx"}, {Ev: "gc"},
 		{Ev: "sched", DN: "root.f"}, {Ev: "healthy", DN: "root.f"}, {Ev: "gc"},
 	},
+	// c dies and is restarted on its own (its node object is re-used by reset); the new c signals Done and lingers; then p fails:
+	// p must not be restarted while that c is still running
+	"done-after-own-restart": {
+		{Ev: "sched", DN: "root"}, {Ev: "rungroup", DN: "root", Names: []string{"p"}}, {Ev: "healthy", DN: "root"}, {Ev: "sched", DN: "root.p"},
+		{Ev: "rungroup", DN: "root.p", Names: []string{"c"}}, {Ev: "healthy", DN: "root.p"}, {Ev: "sched", DN: "root.p.c"},
+		{Ev: "return", DN: "root.p.c", Kind: "err"}, {Ev: "died", DN: "root.p.c", Kind: "err"}, {Ev: "gc"}, {Ev: "sched", DN: "root.p.c"},
+		{Ev: "healthy", DN: "root.p.c"}, {Ev: "done", DN: "root.p.c"},
+		{Ev: "return", DN: "root.p", Kind: "err"}, {Ev: "died", DN: "root.p", Kind: "err"}, {Ev: "gc"},
+		{Ev: "return", DN: "root.p.c", Kind: "nil"}, {Ev: "died", DN: "root.p.c", Kind: "nil"}, {Ev: "gc"}, {Ev: "sched", DN: "root.p"},
+	},
 	// the same tree with a child that does NOT signal Done: p is restarted only after c has returned
 	"healthy-child-waits": {
 		{Ev: "sched", DN: "root"}, {Ev: "rungroup", DN: "root", Names: []string{"p"}}, {Ev: "healthy", DN: "root"}, {Ev: "sched", DN: "root.p"},
